@@ -88,18 +88,29 @@ Proof. exact refresh_moves_deadline. Qed.
 Print Assumptions C36_refresh_moves_deadline.
 
 (* Subscription expiry: the presence tick unsubscribes (2501) exactly the client-side
-   subscriptions whose expiry plus grace delay has passed. *)
+   subscriptions whose expiry plus grace delay has passed and that the application does not
+   extend ([sub_gone]: client-side refresh, or the SubRefreshHandler fails / answers expired);
+   the handler is asked exactly about the expired ones without client-side refresh ([tick_out]). *)
 Theorem C36_subscription_expiry :
   forall g l s,
     closed s = false ->
-    (forall b, In b l -> sub_expired g s b = true -> sb_server b = false) ->
-    snd (tick_subs g s l) = map (fun b => OUnsub (sb_name b) 2501) (filter (sub_expired g s) l) /\
+    (forall b, In b l -> sub_gone g s b = true -> sb_server b = false) ->
+    snd (tick_subs g s l) = flat_map (tick_out g s) l /\
     closed (fst (tick_subs g s l)) = false.
 Proof. exact tick_subs_spec. Qed.
 Print Assumptions C36_subscription_expiry.
 
+(* Server-side sub refresh: an expired subscription without client-side refresh that the
+   SubRefreshHandler extends stays subscribed with the new expiry; nothing is written. *)
+Theorem C36_subscription_extended :
+  forall g s b e,
+    closed s = false -> sub_expired g s b = true -> sub_refreshed g s b = Some e ->
+    tick_subs g s [b] = (set_subs s (set_sub_exp (subs s) (sb_name b) e), [OAsk (sb_name b)]).
+Proof. exact tick_sub_extended. Qed.
+Print Assumptions C36_subscription_extended.
+
 (* Non-vacuity: a run with ping, pong, refresh and an expiry close. *)
-Definition ex_cfg := mkCfg 20 10 23 20 10 10 false RNone.
+Definition ex_cfg := mkCfg 20 10 23 20 10 10 false RNone SFail.
 Example C36_ex_run :
   match exec ex_cfg (init ex_cfg)
           [LAdvance 5; LConnect 20 true 13 10; LAdvance 10; LFire; LPong; LRefreshCmd 60;
